@@ -101,3 +101,47 @@ class MultiplyOrchestration(Contract):
                                symbols=dict(factor=factor, n_copy_names=n), minimize=[factor, n],
                                replay=lambda w: {"target": "bounded.replay_helpers:multiply_orchestration_cases"}, confirm=battery_confirm))
         return cs
+
+
+@register
+class DivideCounts(Contract):
+    fn = "gfapy/graph_operations/multiplication.py::Multiplication._Multiplication__divide_counts"
+    props = ("C15",)
+    doc = ("the read / fragment / k-mer counts of a line are divided by the factor: each of KC, RC, FC that the line carries is set once, to "
+           "its value div factor (floor division); a count tag the line does not carry is not created; no other field is written")
+
+    def cases(self, ctx):
+        g = ctx.gfapy
+        factor = z3.Int("factor")
+        tags = ["KC", "RC", "FC"]
+        has = {t: z3.Bool("has_" + t) for t in tags}
+        val = {t: z3.Int("value_" + t) for t in tags}
+        line, gfa = Obj(g.Line, "line"), Obj(g.Gfa, "gfa")
+        class TagNames:
+            def pyvc_contains(self, E, x):
+                return has[conc(x)]
+        def m_get(E, st, pos, kw):
+            yield ("val", val[conc(pos[1])], [])
+        def m_set(E, st, pos, kw):
+            t = conc(pos[1])
+            w = dict(st.ghost.get("written", {}))
+            w[t] = w.get(t, ()) + (S(pos[2]),)
+            yield ("val", None, [], st.with_ghost("written", w))
+        models = {g.Line.tagnames.fget: const_model(lambda s_: TagNames()), ctx.fn("gfapy/line/common/field_data.py::FieldData.get"): m_get,
+                  ctx.fn("gfapy/line/common/field_data.py::FieldData.set"): m_set}
+        def post(kd, v, st):
+            if kd != "return":
+                return z3.BoolVal(False)
+            w = st.ghost.get("written", {})
+            c = [z3.BoolVal(set(w) <= set(tags))]
+            for t in tags:
+                ws = w.get(t, ())
+                if len(ws) == 0:
+                    c.append(z3.Not(has[t]))
+                elif len(ws) == 1:
+                    c.append(z3.And(has[t], ws[0] == val[t] / factor))
+                else:
+                    c.append(z3.BoolVal(False))
+            return z3.And(*c)
+        return [Case("tags", [gfa, line, factor], post, pre=[factor >= 2] + [val[t] >= 0 for t in tags], heap={gfa.oid: {}, line.oid: {}}, models=models,
+                     symbols=dict(factor=factor, **{"has_" + t: has[t] for t in tags}, **{"value_" + t: val[t] for t in tags}), minimize=[factor])]
